@@ -3,7 +3,8 @@
 Lean model: Rangers/Model/Evm12{World,Frames,Tx}.lean (frame entry points of src/vm/evm.go, the
 read-only guard of the interpreter, Prepare / receipts of the block loop), theorems in
 Rangers/Props/C12*.lean.  Tie: T-gen (gen/cmd/c12facts -> Generated/C12Facts.lean) + T-corr
-(harness/cmd/c12: frame trees compiled to real bytecode, executed by the real EVM on a real AccountDB).
+(harness/cmd/c12: frame trees compiled to real bytecode, executed by the real EVM on a real AccountDB;
+one block in three goes through the unmodified VMExecutor.Execute via core.VerifC01Execute).
 """
 import json
 import os
@@ -11,7 +12,7 @@ import re
 
 import vlib
 
-PROPS = ['Rangers.Props.C12Facts', 'Rangers.Props.C12', 'Rangers.Props.C12B']
+PROPS = ['Rangers.Props.C12Facts', 'Rangers.Props.C12', 'Rangers.Props.C12B', 'Rangers.Props.C12C']
 DRIVERS = ['C12']
 META = dict(
     level='proof',
@@ -28,7 +29,7 @@ META = dict(
     ],
     assumptions=[
         'not a sub-chain (common.IsSub() = false), so the create white-list check of evm.create is inactive',
-        'the block loop of VMExecutor.Execute / contractExecutor.Execute is re-enacted by the harness without fees (statement order tied by generated facts)',
+        'two block-loop streams: the unmodified VMExecutor.Execute (hook core.VerifC01Execute; receipts, logs, transient storage and access list compared, balances not: fees are C06) and a re-enacted loop without fees that allows observing every frame (statement order tied by generated facts)',
     ],
     rule='distinct op lines (reset / tx with a frame tree) answered identically by implementation and model; bad-op lines are the malformed stream',
     explanation='A failed or reverted frame restores the snapshot taken at frame entry; nothing flagged as a write runs in a read-only frame; Prepare resets the access list and receipts take GetLogs(txhash). Known deviations of the unchanged code are reported as KNOWN-FINDING.',
@@ -47,7 +48,7 @@ def gen(ctx):
 
 
 def _nontrivial(op, ans):
-    return ans != 'bad-op' and (op.startswith('tx ') or op.startswith('reset '))
+    return ans != 'bad-op' and op.split(' ')[0] in ('tx', 'rtx', 'rend', 'reset')
 
 
 def correspond(ctx):
